@@ -35,6 +35,12 @@ def gen_desc(verif_seed: int, i: int, tier: str = "quick") -> dict:
     cfg = gen.gen_engine_config(rng, entry="engine", p_probing=0.2, max_examples_range=(2, 8))
     cfg["workers"] = 1
     cfg["max_failures"] = None
+    # "for all seeds": the edge values too (0 is a legal seed; seeds beyond 64 bits)
+    h = (rs >> 7) % 9
+    if h == 0:
+        cfg["seed"] = 0
+    elif h == 1:
+        cfg["seed"] = 2**64 + 17
     source = SOURCES[i % len(SOURCES)]
     behaviour = gen.gen_behaviour(rng, udesc, kinds=["http500", "marker", "undocumented"], p_none=0.5, max_n=2)
     if source == "workers":
